@@ -69,8 +69,10 @@
       exec <owner tid> <op> <arg> <response...>   when the container executes a request
       free                           in the allocator's deallocate, called by free_publication_record
       ret <response...>              after release_record
-    Model-only event (stripped by checks/C23.py before the comparison, counted as a monitor):
+    Model-only events (stripped by checks/C23.py before the comparison, counted as monitors):
       uaf                            after an access to a record that was freed
+      lost                           at release_record when the request word is not req_Response
+                                     (the compiled-out `assert( pRec->is_done())` of the containers)
 
     Freed records are zero-filled (the harness allocator does the same with the memory it quarantines). *)
 From Coq Require Import ZArith List String Bool Lia PeanoNat.
@@ -177,9 +179,13 @@ Section Kernel.
   (** the requester fills its record (plain writes) and stores the request word *)
   Definition a_request (r op tid : nat) (arg : Z) : G -> G * V * list ev :=
     fun g => (upd_rec g r (set_request (g_recs g r) op tid arg), VN 0, acc g KSt r FReq true).
-  (** release_record; the response fields are read by the requester around it (plain reads) *)
+  (** release_record; the response fields are read by the requester around it (plain reads).
+      The containers state `assert( pRec->is_done())` just before (compiled out under -DNDEBUG): the model-only
+      event "lost" marks a release of a record whose request word is not req_Response. *)
   Definition a_release (r : nat) : G -> G * V * list ev :=
-    fun g => (upd_rec g r (set_fld (g_recs g r) FReq req_Empty), VR (r_res (g_recs g r)), acc g KSt r FReq true).
+    fun g => (upd_rec g r (set_fld (g_recs g r) FReq req_Empty), VR (r_res (g_recs g r)),
+              acc g KSt r FReq true ++
+              (if Nat.eqb (r_req (g_recs g r)) req_Response then [] else [EvCli "lost" []])).
   Definition a_ldcount : G -> G * V * list ev := fun g => (g, VN (g_count g), [EvAcc KLd obj_count true]).
   Definition a_faacount : G -> G * V * list ev :=
     fun g => (set_count g (S (g_count g)), VN (g_count g), [EvAcc KFaa obj_count true]).
@@ -517,6 +523,7 @@ Definition cnt_visit (p : cnt_P) (c : cnt_state) (r op tid : nat) (arg : Z)
   if Nat.eqb op op_pair then
     match p with
     | Some (q, qarg) =>
+        if Nat.eqb q r then (p, c, []) else
         let '(c1, n1) := cnt_apply c op_pair qarg in
         let '(c2, n2) := cnt_apply c1 op_pair arg in
         (None, c2, [(q, n1); (r, n2)])
